@@ -153,45 +153,151 @@ def collapse_case(rng, hashseed):
             "hashseed": hashseed}
 
 
-def session_case(rng, hashseed):
+def cols_for(rng, v, pa, cards):
+    ncol = 1
+    for p in pa:
+        ncol *= cards[p]
+    mode = rng.choice(["pos", "zeros", "mix"])
+    return [[fr(x) for x in rand_col(rng, cards[v], rng.choice(["pos", "zeros", "det"]) if mode == "mix" else mode)]
+            for _ in range(ncol)]
+
+
+def pick_query_on(rng, alive, cards, allow_vev):
+    q = rng.sample(alive, rng.randint(1, min(3, len(alive))))
+    rest = [v for v in alive if v not in q]
+    e = rng.sample(rest, rng.randint(0, min(3, len(rest))))
+    ev = [[v, rng.randrange(cards[v])] for v in e]
+    vev = []
+    if allow_vev and rng.random() < 0.4:
+        for v in rng.sample(alive, rng.randint(1, min(2, len(alive)))):
+            vals = [Fraction(rng.choice([0, 1, 2, 3, 4, 4, 5, 8]), 8) for _ in range(cards[v])]
+            t = [v, [fr(x) for x in vals]]
+            if cards[v] >= 2 and rng.random() < 0.25:
+                t.append(rng.choice(all_perms(cards[v])))
+            vev.append(t)
+    return q, ev, vev
+
+
+def session_case(rng, hashseed, edits=False):
+    """ONE engine (and one model object), a sequence of steps: queries (roles re-split over the same node set, other
+    evidence states, repeats, virtual evidence also with re-ordered state lists), calls that must be rejected, and -
+    with edits - changes of the model through every mutator in between (add_cpds of an existing variable, remove_node,
+    add_node + add_edge(s), remove_edge, add_edge); the oracle of every step is the model on the CURRENT network"""
     n = rng.choice([3, 3, 4, 4, 5])
     shape, edges = shape_dag(rng, n)
     if rng.random() < 0.4:
         o = list(range(n))
         rng.shuffle(o)
         shape, edges = "chain", [(o[i], o[i + 1]) for i in range(n - 1)]
-    cards = [rng.choice([2, 2, 3]) for _ in range(n)]
-    nstyle = rng.choice(["str", "str", "int", "tuple"])
+    edges = [tuple(e) for e in edges]
+    n_total = n + (3 if edits else 0)
+    cards = [rng.choice([2, 2, 3]) for _ in range(n_total)]
+    cpds = gen_cpds(rng, n, edges, cards)
+    # hidden topological order (edits keep the graph acyclic by only adding edges forward in it)
+    topo, left = [], set(range(n))
+    while left:
+        for v in sorted(left):
+            if all(u not in left for (u, w) in edges if w == v):
+                topo.append(v)
+                left.discard(v)
+                break
+    alive = list(range(n))
+    eset = set(edges)
+    pa = {v: list(cpds[str(v)]["pa"]) for v in range(n)}
+    next_id = n
     steps = []
-    for k in range(rng.randint(3, 8)):
+    queries = []
+    nsteps = rng.randint(3, 8)
+    while len([s_ for s_ in steps if "op" not in s_]) < nsteps:
+        usable = [s_ for s_ in queries if all(v in alive for v in s_["Q"] + [e[0] for e in s_["E"]] + [t[0] for t in s_["vev"]])]
         r = rng.random()
-        if steps and r < 0.45:
-            # same node set, roles re-split
-            prev = steps[-1]
+        if usable and r < 0.45:
+            prev = usable[-1]
             pool = list(prev["Q"]) + [e[0] for e in prev["E"]]
             rng.shuffle(pool)
             nq = rng.randint(1, max(1, len(pool) - 1)) if len(pool) > 1 else 1
             q, e = pool[:nq], pool[nq:]
             ev = [[v, rng.randrange(cards[v])] for v in e]
             vev = []
-        elif steps and r < 0.6:
-            # same roles, other evidence states
-            prev = steps[-1]
+        elif usable and r < 0.6:
+            prev = usable[-1]
             q, ev, vev = list(prev["Q"]), [[v, rng.randrange(cards[v])] for v, _ in prev["E"]], []
-        elif steps and r < 0.75:
-            prev = rng.choice(steps)
+        elif usable and r < 0.75:
+            prev = rng.choice(usable)
             q, ev, vev = list(prev["Q"]), [list(x) for x in prev["E"]], [list(x) for x in prev["vev"]]
         else:
-            q, ev, vev = pick_query(rng, n, cards, True)
-        # sessions use virtual evidence in model order only: a REJECTED virtual evidence leaves the engine with the
-        # augmented model (exception safety / purity = C16; probed and tagged in the vevperm stream)
-        vev = [t[:2] for t in vev]
-        steps.append({"Q": q, "E": ev, "vev": vev, "eo": rng.choice(EOS), "joint": rng.random() < 0.6})
+            q, ev, vev = pick_query_on(rng, alive, cards, True)
+        st = {"Q": q, "E": ev, "vev": vev, "eo": rng.choice(EOS), "joint": rng.random() < 0.6}
+        steps.append(st)
+        queries.append(st)
+        # a call that must be rejected (and must leave the engine as it was)
+        if rng.random() < 0.2:
+            why = rng.choice(["common", "vev_unknown", "vev_card", "vev_later", "vev_later_unknown"])
+            a = rng.choice(alive)
+            rj = {"op": "reject", "why": why, "Q": [a], "E": [], "vev": [], "eo": rng.choice(EOS), "joint": rng.random() < 0.5}
+            if why == "common":
+                rj["E"] = [[a, rng.randrange(cards[a])]]
+            elif why == "vev_unknown":
+                rj["vev"] = [[999, 2, [0, 1]]]
+            elif why == "vev_card":
+                rj["vev"] = [[a, cards[a] + 1, list(range(cards[a] + 1))]]
+            elif why == "vev_later_unknown":
+                rj["vev"] = [[a, cards[a], list(range(cards[a]))], [999, 2, [0, 1]]]
+            else:
+                b_ = rng.choice(alive)
+                rj["vev"] = [[a, cards[a], list(range(cards[a]))], [b_, cards[b_] + 1, list(range(cards[b_] + 1))]]
+            steps.append(rj)
+        if rng.random() < 0.15:
+            steps.append({"op": "fresh_engine"})
+        if edits and rng.random() < 0.5:
+            kind = rng.choice(["replace_cpd", "replace_cpd", "remove_node", "add_node", "remove_edge", "add_edge"])
+            if kind == "replace_cpd":
+                v = rng.choice(alive)
+                rng.shuffle(pa[v])
+                steps.append({"op": "replace_cpd", "v": v, "pa": list(pa[v]), "cols": cols_for(rng, v, pa[v], cards)})
+            elif kind == "remove_node" and len(alive) >= 3:
+                v = rng.choice(alive)
+                alive.remove(v)
+                topo.remove(v)
+                eset = {(u, w) for (u, w) in eset if v not in (u, w)}
+                for w in alive:
+                    if v in pa[w]:
+                        pa[w].remove(v)
+                steps.append({"op": "remove_node", "v": v})
+            elif kind == "add_node" and next_id < n_total:
+                v = next_id
+                next_id += 1
+                pv = rng.sample(alive, rng.randint(0, min(2, len(alive))))
+                pa[v] = list(pv)
+                alive.append(v)
+                topo.append(v)
+                eset |= {(u, v) for u in pv}
+                steps.append({"op": "add_node", "v": v, "pa": list(pv), "cols": cols_for(rng, v, pv, cards)})
+            elif kind == "remove_edge" and eset:
+                u, v = rng.choice(sorted(eset))
+                eset.discard((u, v))
+                pa[v].remove(u)
+                steps.append({"op": "remove_edge", "u": u, "v": v, "pa": list(pa[v]), "cols": cols_for(rng, v, pa[v], cards)})
+            elif kind == "add_edge":
+                cand = [(topo[i], topo[k]) for i in range(len(topo)) for k in range(i + 1, len(topo))
+                        if (topo[i], topo[k]) not in eset and len(pa[topo[k]]) < 3]
+                if cand:
+                    u, v = rng.choice(cand)
+                    eset.add((u, v))
+                    pa[v].insert(rng.randint(0, len(pa[v])), u)
+                    steps.append({"op": "add_edge", "u": u, "v": v, "pa": list(pa[v]), "cols": cols_for(rng, v, pa[v], cards)})
     nodes = list(range(n))
     rng.shuffle(nodes)
-    return {"kind": "session", "shape": shape, "n": n, "nodes": nodes, "edges": [list(e) for e in edges], "cards": cards,
-            "cpds": gen_cpds(rng, n, edges, cards), "nstyle": nstyle, "sstyle": rng.choice(["int", "str", "tuple", "mixed"]),
-            "nameseed": rng.randint(0, 10**9), "steps": steps, "oseed": rng.randint(0, 10**9), "hashseed": hashseed}
+    c = {"kind": "session", "shape": shape, "n": n, "nodes": nodes, "edges": [list(e) for e in edges], "cards": cards,
+         "cpds": cpds, "nstyle": rng.choice(["str", "str", "int", "tuple", "substr"]),
+         "sstyle": rng.choice(["int", "str", "tuple", "mixed", "onebased", "bool"]),
+         "nameseed": rng.randint(0, 10**9), "steps": steps, "oseed": rng.randint(0, 10**9), "hashseed": hashseed}
+    if edits:
+        c["n_total"] = n_total
+        c["edits"] = True
+    if rng.random() < 0.15:
+        c["backend"] = "torch"
+    return c
 
 
 def state_names(rng, card, style):
@@ -201,6 +307,10 @@ def state_names(rng, card, style):
         l = ["s%d" % i for i in range(card)]
     elif style == "tuple":
         l = [["t", i] for i in range(card)]  # JSON: lists; turned into tuples by the worker
+    elif style == "onebased":
+        l = list(range(1, card + 1))  # integers that are not their positions
+    elif style == "bool":
+        l = [False, True] if card == 2 else ([True] if card == 1 else list(range(2, card + 2)))
     else:
         pool = [0, "a", ["t", 1], 1, "b", ["u", 2]]
         l = pool[:card]
@@ -226,13 +336,15 @@ def tiny_case(rng, hashseed):
     cards = [hc] + [2] * k + [2]
     cpds = gen_cpds(rng, n, edges, cards)
     cpds[str(H)] = {"pa": [], "cols": [[fr(x) for x in rand_col(rng, hc, "pos")]]}
-    budget = rng.randint(20, 100)
-    ms = [max(6, min(40, budget // k + rng.randint(-4, 4))) for _ in alarms]
+    deep = rng.random() < 0.3
+    top = 300 if deep else 40
+    budget = rng.randint(200, 600) if deep else rng.randint(20, 100)
+    ms = [max(6, min(top, budget // k + rng.randint(-4, 4))) for _ in alarms]
     for a, mexp in zip(alarms, ms):
         pa = cpds[str(a)]["pa"]
         cols = []
         for _ in range(hc if pa else 1):
-            me = max(6, min(40, mexp + rng.randint(-3, 3)))
+            me = max(6, min(top, mexp + rng.randint(-3, 3)))
             cols.append([fr(1 - Fraction(1, 2 ** me)), fr(Fraction(1, 2 ** me))])
         cpds[str(a)] = {"pa": pa, "cols": cols}
     obs = rng.sample(alarms, rng.randint(2, k))
@@ -269,6 +381,49 @@ def vevperm_case(rng, hashseed):
             "sstyle": rng.choice(["int", "str", "tuple", "mixed"]), "nameseed": rng.randint(0, 10**9),
             "Q": q, "E": [[v, rng.randrange(cards[v])] for v in e], "x": x, "vals": [fr(v) for v in vals],
             "oseed": rng.randint(0, 10**9), "hashseed": hashseed}
+
+
+def big_case(rng, hashseed):
+    """>= 9 variables in one factor (a family with 8 parents, or a long chain eliminated into wide factors), integer
+    node names >= 8 (the iteration order of a set of small ints is increasing only below 8)"""
+    n = rng.choice([10, 10, 11])
+    o = list(range(n))
+    rng.shuffle(o)
+    if rng.random() < 0.6:
+        child = o[-1]
+        edges = [(p, child) for p in o[:8]] + ([(o[8], o[0])] if n > 9 else [])
+        shape = "family8"
+    else:
+        # a 'comb': chain plus a hub observed late, VE with a poor explicit order builds wide factors
+        edges = [(o[i], o[i + 1]) for i in range(n - 1)] + [(o[0], o[k]) for k in range(2, n, 2)]
+        shape = "comb"
+    cards = [2] * n
+    q = rng.sample(range(n), rng.randint(1, 2))
+    rest = [v for v in range(n) if v not in q]
+    ev = [[v, rng.randrange(2)] for v in rng.sample(rest, rng.randint(0, 2))]
+    vev = []
+    if rng.random() < 0.3:
+        v = rng.randrange(n)
+        vev = [[v, [fr(Fraction(rng.randint(1, 7), 8)) for _ in range(2)]]]
+    nodes = list(range(n))
+    rng.shuffle(nodes)
+    return {"kind": "rand", "shape": shape, "n": n, "nodes": nodes, "edges": [list(e) for e in edges], "cards": cards,
+            "cpds": gen_cpds(rng, n, edges, cards), "nstyle": rng.choice(["int", "int", "str"]),
+            "sstyle": rng.choice(["int", "str", "onebased"]), "nameseed": rng.randint(0, 10**9), "Q": q, "E": ev, "vev": vev,
+            "oseed": rng.randint(0, 10**9), "ncfg": 3, "hashseed": hashseed}
+
+
+def nearequal_case(rng, hashseed):
+    """the collapse network with tables that differ by 2^-30 .. 2^-40 (inside DiscreteFactor.__eq__'s atol)"""
+    c = collapse_case(rng, hashseed)
+    d = Fraction(1, 2 ** rng.randint(30, 40))
+    cols = [[Fraction(a, b) for a, b in col] for col in c["cpds"]["3"]["cols"]]
+    k = rng.randrange(len(cols))
+    if cols[k][0] > d and cols[k][1] + d < 1:
+        cols[k] = [cols[k][0] - d, cols[k][1] + d]
+    c["cpds"]["3"]["cols"] = [[fr(x) for x in col] for col in cols]
+    c["shape"] = "nearequal"
+    return c
 
 
 def pick_query(rng, n, cards, allow_vev):
@@ -313,13 +468,15 @@ def cases(tier, seed):
         coarse = shape == "twins" or rng.random() < 0.15
         nodes = list(range(n))
         rng.shuffle(nodes)
-        nstyle = rng.choice(["str", "str", "int", "tuple", "mixed"])
+        nstyle = rng.choice(["str", "str", "int", "tuple", "mixed", "substr"])
         q, ev, vev = pick_query(rng, n, cards, True)
         order_seed = rng.randint(0, 10**9)
         base = {"kind": "rand", "shape": shape, "n": n, "nodes": nodes, "edges": [list(e) for e in edges], "cards": cards,
                 "cpds": gen_cpds(rng, n, edges, cards, coarse), "nstyle": nstyle,
-                "sstyle": rng.choice(["int", "str", "tuple", "mixed"]), "nameseed": rng.randint(0, 10**9),
+                "sstyle": rng.choice(["int", "str", "tuple", "mixed", "onebased", "bool"]), "nameseed": rng.randint(0, 10**9),
                 "Q": q, "E": ev, "vev": vev, "oseed": order_seed}
+        if rng.random() < 0.2:
+            base["backend"] = "torch"
         # the same query under 2 (quick) / 4 (thorough) different hash seeds
         for h in rng.sample(hs, 2 if tier == "quick" else 4):
             c = dict(base)
@@ -330,14 +487,34 @@ def cases(tier, seed):
         out.append(collapse_case(rng, hs[i % len(hs)]))
     # sessions: ONE engine, several queries; consecutive queries often use the same node set with the
     # query / evidence roles re-split, the same evidence variables in other states, or repeat earlier queries
-    for i in range(140 if tier == "quick" else 2000):
+    for i in range(110 if tier == "quick" else 1600):
         out.append(session_case(rng, hs[i % len(hs)]))
+    # ... with changes of the model object in between (every mutator), oracle = the current network
+    for i in range(70 if tier == "quick" else 1000):
+        out.append(session_case(rng, hs[i % len(hs)], edits=True))
     # tiny probabilities: P(evidence) in 1e-6 .. 1e-30, near-zero marginals (pure relative comparison)
     for i in range(60 if tier == "quick" else 800):
         out.append(tiny_case(rng, hs[i % len(hs)]))
     # virtual evidence with the state list in every order
-    for i in range(24 if tier == "quick" else 300):
+    for i in range(16 if tier == "quick" else 300):
         out.append(vevperm_case(rng, hs[i % len(hs)]))
+    # wide factors (>= 9 variables), integer names >= 8
+    for i in range(8 if tier == "quick" else 120):
+        out.append(big_case(rng, hs[i % len(hs)]))
+    # tables that differ by less than the tolerance of factor equality
+    for i in range(6 if tier == "quick" else 80):
+        out.append(nearequal_case(rng, hs[i % len(hs)]))
+    # a child CPD that lists a parent's states in another order: the engine must refuse the model
+    for i in range(8 if tier == "quick" else 80):
+        n = rng.choice([2, 3])
+        o = list(range(n))
+        rng.shuffle(o)
+        edges = [(o[i_], o[i_ + 1]) for i_ in range(n - 1)]
+        cards = [rng.choice([2, 3]) for _ in range(n)]
+        out.append({"kind": "badstates", "n": n, "nodes": list(range(n)), "edges": [list(e) for e in edges], "cards": cards,
+                    "cpds": gen_cpds(rng, n, edges, cards), "nstyle": rng.choice(["str", "int"]),
+                    "sstyle": rng.choice(["int", "str", "onebased"]), "nameseed": rng.randint(0, 10**9),
+                    "child": o[1], "perm": rng.choice(all_perms(cards[o[0]])), "hashseed": hs[i % len(hs)]})
     # malformed elimination orders (rejection paths)
     for i in range(12 if tier == "quick" else 60):
         n = rng.choice([3, 4])
@@ -348,13 +525,14 @@ def cases(tier, seed):
                     "nameseed": rng.randint(0, 10**9), "which": rng.choice(["hasq", "hase", "missing"]),
                     "hashseed": hs[i % len(hs)]})
     # the BayesianNetwork front ends that route through the same joint
-    for i in range(30 if tier == "quick" else 300):
+    for i in range(40 if tier == "quick" else 500):
         n = rng.choice([2, 3, 4, 5])
         shape, edges = shape_dag(rng, n)
         cards = [rng.choice([1, 2, 2, 3]) for _ in range(n)]
         q, ev, _ = pick_query(rng, n, cards, False)
         out.append({"kind": "front", "n": n, "nodes": list(range(n)), "edges": [list(e) for e in edges], "cards": cards,
-                    "cpds": gen_cpds(rng, n, edges, cards), "nstyle": "str", "sstyle": rng.choice(["int", "str"]),
+                    "cpds": gen_cpds(rng, n, edges, cards), "nstyle": rng.choice(["str", "substr"]),
+                    "sstyle": rng.choice(["int", "str", "onebased", "bool"]),
                     "nameseed": rng.randint(0, 10**9), "E": ev, "hashseed": hs[i % len(hs)]})
     return out
 
@@ -363,7 +541,7 @@ def shrink(case):
     if case.get("kind") == "session":
         st = case["steps"]
         for i in range(len(st)):
-            if len(st) > 1:
+            if len(st) > 1 and st[i].get("op") in (None, "reject", "fresh_engine"):
                 c = dict(case)
                 c["steps"] = st[:i] + st[i + 1:]
                 yield c
@@ -404,10 +582,106 @@ def tup(x):
 
 def names_of(case):
     rng = random.Random(case["nameseed"])
-    n = case["n"]
-    nn = common.node_names(rng, n, case["nstyle"])
+    n = case.get("n_total", case["n"])
+    if case["nstyle"] == "substr":
+        pool = ["x1", "x10", "x", "x100", "G", "G2", "G20", "evidence", "variables", "None", "0", "1", "values", "__x"]
+        rng.shuffle(pool)
+        nn = pool[:n]
+    else:
+        nn = common.node_names(rng, n, case["nstyle"])
     sn = [[tup(s) for s in state_names(rng, case["cards"][v], case["sstyle"])] for v in range(n)]
     return nn, sn
+
+
+def apply_edit(m, st, cards, nn, sn):
+    """one change of the model object through its public mutators"""
+    op = st["op"]
+    cols = [[Fraction(a, b) for a, b in col] for col in st.get("cols", [])]
+    if op == "remove_node":
+        m.remove_node(nn[st["v"]])
+    elif op == "replace_cpd":
+        m.add_cpds(make_cpd(st["v"], cards, st["pa"], cols, nn, sn))
+    elif op == "add_node":
+        m.add_node(nn[st["v"]])
+        m.add_edges_from([(nn[u], nn[st["v"]]) for u in st["pa"]])
+        m.add_cpds(make_cpd(st["v"], cards, st["pa"], cols, nn, sn))
+    elif op == "remove_edge":
+        m.remove_edge(nn[st["u"]], nn[st["v"]])
+        m.add_cpds(make_cpd(st["v"], cards, st["pa"], cols, nn, sn))
+    elif op == "add_edge":
+        m.add_edge(nn[st["u"]], nn[st["v"]])
+        m.add_cpds(make_cpd(st["v"], cards, st["pa"], cols, nn, sn))
+    else:
+        raise ValueError(op)
+    m.check_model()
+
+
+def run_reject(case, drv, m, nn, sn, st, ve, rng, tags):
+    """a call the code must reject with ValueError (model: Model.query_rejects <> 0); arguments stay untouched"""
+    from pgmpy.factors.discrete import TabularCPD
+    cards = case["cards"]
+    idx = {repr(x): i for i, x in enumerate(nn)}
+    nodes = [idx[repr(x)] for x in m.nodes()]
+    code = drv.call("c01_reject", [[[v, cards[v]] for v in range(len(cards))], nodes, st["Q"], [e[0] for e in st["E"]],
+                                   [[t[0], t[1], t[2]] for t in st["vev"]]])
+    virt = []
+    for v, gc, perm in st["vev"]:
+        name = nn[v] if v < len(nn) else "no such node"
+        names = [sn[v][p] if (v < len(sn) and p < len(sn[v])) else "extra%d" % p for p in perm]
+        virt.append(TabularCPD(name, gc, [[0.5]] * gc, state_names={name: names}))
+    parg, _ = eo_args(st["eo"], case, st["Q"], st["E"], rng, nn)
+    if isinstance(parg, list):
+        parg = [x for x in parg if repr(x) in {repr(y) for y in m.nodes()}]
+    res, pure = do_query(ve, [nn[q] for q in st["Q"]], {nn[v]: sn[v][i] for v, i in st["E"]}, virt, parg, st["joint"], rng, None)
+    detail = {"step": st, "model_code": code, "impl": repr(res)[:200]}
+    if not pure:
+        return bad("argument-mutated", detail)
+    if code == 0:
+        raise RuntimeError("generator: reject step the model accepts")
+    if not isinstance(res, ValueError):
+        if isinstance(res, Exception):
+            raise res
+        return bad("rejected-call-accepted", detail)
+    tags.append("reject=%s" % st["why"])
+    return None
+
+
+def set_backend(case):
+    from pgmpy import config
+    if case.get("backend") == "torch":
+        import torch
+        config.set_backend("torch", device="cpu", dtype=torch.float64)
+    else:
+        config.set_backend("numpy")
+
+
+def as_values(values, style):
+    """the container a CPD table is given in: nested lists, C-contiguous float64 ndarray, a non-contiguous view,
+    a slice of a larger reused buffer"""
+    import numpy as np
+    if style == "list":
+        return values
+    a = np.array(values, dtype=float)
+    if style == "ndarray":
+        return np.ascontiguousarray(a)
+    if style == "view":
+        return np.asfortranarray(a)
+    buf = np.full((a.shape[0] + 2, a.shape[1] + 3), 9.0)
+    buf[1:1 + a.shape[0], 2:2 + a.shape[1]] = a
+    return buf[1:1 + a.shape[0], 2:2 + a.shape[1]]
+
+
+def make_cpd(v, cards, pa, cols, nn, sn, vstyle="list"):
+    from pgmpy.factors.discrete import TabularCPD
+    values = [[float(cols[j][i]) for j in range(len(cols))] for i in range(cards[v])]
+    st = {nn[v]: list(sn[v])}
+    for p in pa:
+        st[nn[p]] = list(sn[p])
+    values = as_values(values, vstyle)
+    if pa:
+        return TabularCPD(nn[v], cards[v], values, evidence=[nn[p] for p in pa],
+                          evidence_card=[cards[p] for p in pa], state_names=st)
+    return TabularCPD(nn[v], cards[v], values, state_names=st)
 
 
 def build(case):
@@ -415,23 +689,21 @@ def build(case):
     from pgmpy.factors.discrete import TabularCPD
     nn, sn = names_of(case)
     n, cards = case["n"], case["cards"]
+    set_backend(case)
+    # insertion orders of nodes, edges and CPDs and the container of the tables are all free
+    brng = random.Random(case["nameseed"] + 1)
     m = BayesianNetwork()
     m.add_nodes_from([nn[v] for v in case["nodes"]])
-    m.add_edges_from([(nn[u], nn[v]) for u, v in case["edges"]])
-    for v in range(n):
+    edges = [(nn[u], nn[v]) for u, v in case["edges"]]
+    brng.shuffle(edges)
+    m.add_edges_from(edges)
+    order = list(range(n))
+    brng.shuffle(order)
+    for v in order:
         c = case["cpds"][str(v)]
-        pa = c["pa"]
         cols = [[Fraction(a, b) for a, b in col] for col in c["cols"]]
-        values = [[float(cols[j][i]) for j in range(len(cols))] for i in range(cards[v])]
-        st = {nn[v]: list(sn[v])}
-        for p in pa:
-            st[nn[p]] = list(sn[p])
-        if pa:
-            cpd = TabularCPD(nn[v], cards[v], values, evidence=[nn[p] for p in pa],
-                             evidence_card=[cards[p] for p in pa], state_names=st)
-        else:
-            cpd = TabularCPD(nn[v], cards[v], values, state_names=st)
-        m.add_cpds(cpd)
+        vstyle = brng.choice(["list", "list", "ndarray", "view", "buffer"])
+        m.add_cpds(make_cpd(v, cards, c["pa"], cols, nn, sn, vstyle))
     m.check_model()
     return m, nn, sn
 
@@ -442,6 +714,19 @@ def model_bn(case, m, nn, extra_cards=()):
     n, cards = case["n"], case["cards"]
     nodes = [idx[repr(x)] for x in m.nodes()]
     cl = [[v, cards[v]] for v in range(n)] + [list(x) for x in extra_cards]
+    if case.get("_live"):
+        # the CURRENT state of the pgmpy model (after edits): exact rationals of the floats it holds
+        import numpy as np
+        cp = []
+        for cpd in m.get_cpds():
+            vs = [idx[repr(x)] for x in cpd.variables]
+            for x, v in zip(cpd.variables, vs):
+                if list(cpd.state_names[x]) != list(case["_sn"][v]):
+                    raise RuntimeError("live CPD lists the states of %r in another order" % (x,))
+            flat = [Fraction(float(t)) for t in np.asarray(cpd.values, dtype=float).ravel()]
+            cp.append([idx[repr(cpd.variable)], [vs, flat]])
+        edges = [[idx[repr(u)], idx[repr(w)]] for u, w in m.edges()]
+        return [cl, nodes, edges, cp]
     cp = []
     for v in range(n):
         c = case["cpds"][str(v)]
@@ -468,7 +753,7 @@ def table_of_impl(phi, nn, idxn):
     import numpy as np
     vs = [idxn[repr(x)] for x in phi.variables]
     out = {}
-    vals = np.asarray(phi.values, dtype=float)
+    vals = np.asarray(phi.values, dtype=float).reshape([len(phi.state_names[x]) for x in phi.variables])
     for idx in idx_tuples(list(vals.shape)):
         out[frozenset((v, repr(phi.state_names[x][i])) for v, x, i in zip(vs, phi.variables, idx))] = float(vals[idx])
     return out
@@ -523,7 +808,85 @@ def eo_args(eo, case, Q, E, rng, nn):
     return eo, [1, HEUR[eo]]
 
 
-def one_query(case, drv, m, nn, sn, Q, E, vev, eo, joint, rng, tags, engine=None):
+def snapshot_args(vars_arg, ev_arg, virt_arg, order_arg):
+    import copy
+    import numpy as np
+    return [copy.deepcopy(list(vars_arg)), copy.deepcopy(ev_arg),
+            None if virt_arg is None else [(list(c.variables), np.asarray(c.values, dtype=float).copy(),
+                                            copy.deepcopy(dict(c.state_names)), list(np.asarray(c.cardinality)))
+                                           for c in virt_arg],
+            copy.deepcopy(order_arg)]
+
+
+def same_snapshot(a, b):
+    import numpy as np
+    if a[0] != b[0] or a[1] != b[1] or a[3] != b[3] or (a[2] is None) != (b[2] is None):
+        return False
+    for x, y in zip(a[2] or [], b[2] or []):
+        if x[0] != y[0] or x[2] != y[2] or x[3] != y[3] or x[1].shape != y[1].shape or not np.array_equal(x[1], y[1]):
+            return False
+    return len(a[2] or []) == len(b[2] or [])
+
+
+def do_query(ve, qn, evidence, virt, parg, joint, rng, reuse):
+    """call query with the arguments in one of their admissible forms; returns (result | exception, purity verdict).
+    reuse: containers that are refilled and handed over again by the session stream (same object, other content)"""
+    if reuse is not None:
+        reuse["vars"][:] = qn
+        vars_arg = reuse["vars"]
+    else:
+        vars_arg = tuple(qn) if rng.random() < 0.2 else list(qn)
+    if evidence:
+        if reuse is not None:
+            reuse["ev"].clear()
+            reuse["ev"].update(evidence)
+            ev_arg = reuse["ev"]
+        else:
+            ev_arg = dict(evidence)
+    else:
+        ev_arg = rng.choice([None, {}])
+    virt_arg = virt if virt else rng.choice([None, None, []])
+    order_arg = parg
+    if isinstance(parg, list) and reuse is not None:
+        reuse["order"][:] = parg
+        order_arg = reuse["order"]
+    before = snapshot_args(vars_arg, ev_arg, virt_arg, order_arg)
+    try:
+        res = ve.query(vars_arg, evidence=ev_arg, virtual_evidence=virt_arg, elimination_order=order_arg,
+                       joint=joint, show_progress=rng.random() < 0.1)
+    except Exception as ex:  # the caller decides which exceptions are expected
+        res = ex
+    pure = same_snapshot(before, snapshot_args(vars_arg, ev_arg, virt_arg, order_arg))
+    return res, pure
+
+
+def scribble(res):
+    """overwrite the returned tables in place: the engine, the model and later answers must not notice"""
+    for phi in (res.values() if isinstance(res, dict) else [res]):
+        try:
+            if hasattr(phi.values, "fill_"):
+                phi.values.fill_(-7.0)
+            else:
+                phi.values[...] = -7.0
+        except Exception:
+            pass
+
+
+def one_query(case, drv, m, nn, sn, Q, E, vev, eo, joint, rng, tags, engine=None, reuse=None):
+    r = _one_query(case, drv, m, nn, sn, Q, E, vev, eo, joint, rng, tags, engine, reuse)
+    if isinstance(r, dict) and not r.get("ok") and r.get("kind") != "argument-mutated":
+        # diagnosed class: the auxiliary child "__" + str(X) of a virtual evidence on X is the name of an EXISTING node
+        live_names = {x for x in m.nodes() if isinstance(x, str)}
+        clash = [t[0] for t in vev if ("__" + str(nn[t[0]])) in live_names]
+        if clash:
+            r["detail"]["clash"] = clash
+            r["detail"]["was"] = r["kind"]
+            r["kind"] = "virtual-evidence-name-collision"
+            r["finding"] = "virtual-evidence-child-name-collision"
+    return r
+
+
+def _one_query(case, drv, m, nn, sn, Q, E, vev, eo, joint, rng, tags, engine=None, reuse=None):
     """run one configuration on pgmpy, the model and the spec; returns None or a bad(...) outcome"""
     from pgmpy.inference import VariableElimination
     from pgmpy.factors.discrete import TabularCPD
@@ -558,23 +921,27 @@ def one_query(case, drv, m, nn, sn, Q, E, vev, eo, joint, rng, tags, engine=None
     ve = engine or VariableElimination(m)
     if pe == 0:
         tags.append("excluded P(e)=0")
-        try:
-            ve.query([nn[q] for q in Q], evidence=evidence, virtual_evidence=virt, elimination_order=parg,
-                     joint=joint, show_progress=False)
+        res, pure = do_query(ve, [nn[q] for q in Q], evidence, virt, parg, joint, rng, reuse)
+        if isinstance(res, Exception):
+            tags.append("P(e)=0: pgmpy raises %s" % type(res).__name__)
+        else:
             tags.append("P(e)=0: pgmpy returns (nan) without raising")
-        except Exception as ex:
-            tags.append("P(e)=0: pgmpy raises %s" % type(ex).__name__)
         return "excluded"
-    try:
-        res = ve.query([nn[q] for q in Q], evidence=evidence, virtual_evidence=virt, elimination_order=parg,
-                       joint=joint, show_progress=False)
-        if reordered:
-            tags.append("vev reordered: accepted (must be exact)")
-    except ValueError:
-        if not reordered:
-            raise
+    res, pure = do_query(ve, [nn[q] for q in Q], evidence, virt, parg, joint, rng, reuse)
+    if not pure:
+        return bad("argument-mutated", detail)
+    if isinstance(res, Exception) and not (isinstance(res, ValueError) and reordered):
+        detail['impl'] = repr(res)[:200]
+        live_names = {x for x in m.nodes() if isinstance(x, str)}
+        if any(("__" + str(nn[v])) in live_names for v, _ in vev):
+            return bad("exception", detail)
+    if isinstance(res, ValueError) and reordered:
         tags.append("vev reordered: rejected (ValueError)")
         return "rejected"
+    if isinstance(res, Exception):
+        raise res
+    if reordered:
+        tags.append("vev reordered: accepted (must be exact)")
     oflag = rng.random() < 0.5
     mr = drv.call("c01_query", wire + [Q, E, vev_model, marg, joint, oflag])
     cfree = bool(mr[0])
@@ -622,6 +989,7 @@ def one_query(case, drv, m, nn, sn, Q, E, vev, eo, joint, rng, tags, engine=None
     if not cfree:
         # working factors are tagged by identity: two different tuples can never compare equal
         return bad("model:collision-despite-identity-tags", detail)
+    scribble(res)
     return None
 
 
@@ -672,6 +1040,11 @@ def run_case(case, drv):
         Q, E, vev = case["Q"], case["E"], case["vev"]
         tags += ["shape=" + case["shape"], "|Q|=%d" % len(Q), "|E|=%d" % len(E), "|vev|=%d" % len(vev)]
         cfgs = [(eo, j) for eo in EOS for j in (True, False)]
+        if case.get("ncfg"):
+            rng.shuffle(cfgs)
+            cfgs = cfgs[:case["ncfg"]]
+        if case.get("backend"):
+            tags.append("backend=" + case["backend"])
         b, nt = run_queries(case, drv, m, nn, sn, Q, E, vev, cfgs, rng, tags)
         if b:
             return dict(b, key=common.canon_key(case), tags=tags)
@@ -738,10 +1111,32 @@ def run_case(case, drv):
         from pgmpy.inference import VariableElimination
         rng = random.Random(case["oseed"])
         ve = VariableElimination(m)
-        tags += ["shape=" + case["shape"], "steps=%d" % len(case["steps"])]
+        live = bool(case.get("edits"))
+        lcase = dict(case, n=len(nn), _live=True, _sn=sn) if live else case
+        reuse = {"vars": [], "ev": {}, "order": []}
+        tags += ["shape=" + case["shape"], "steps=%d" % len(case["steps"])] + (["session with model edits"] if live else [])
         nt = 0
         for k, st in enumerate(case["steps"]):
-            r = one_query(case, drv, m, nn, sn, st["Q"], st["E"], st["vev"], st["eo"], st["joint"], rng, tags, engine=ve)
+            op = st.get("op")
+            if op == "fresh_engine":
+                ve = VariableElimination(m)
+                continue
+            if op == "reject":
+                r = run_reject(lcase, drv, m, nn, sn, st, ve, rng, tags)
+            elif op is not None:
+                apply_edit(m, st, cards, nn, sn)
+                tags.append("edit=%s" % op)
+                continue
+            else:
+                r = one_query(lcase, drv, m, nn, sn, st["Q"], st["E"], st["vev"], st["eo"], st["joint"], rng, tags,
+                              engine=ve, reuse=reuse)
+                if r is None and live and st["E"]:
+                    # the model-level front end on the current state
+                    wire = model_bn(lcase, m, nn)
+                    pe = common.frac(drv.call("c01_spec", wire + [st["Q"], st["E"], []])[0])
+                    got = m.get_state_probability({nn[v]: sn[v][i] for v, i in st["E"]})
+                    if not common.approx(got, pe):
+                        r = bad("impl!=spec:get_state_probability", {"E": st["E"], "impl": float(got), "spec": str(pe)})
             if r == "excluded":
                 continue
             if r == "rejected":
@@ -753,20 +1148,49 @@ def run_case(case, drv):
                 return dict(r, kind="session:" + r["kind"], key=common.canon_key(case), tags=tags)
             nt += 1
         if set(repr(x) for x in ve.model.nodes()) != set(repr(x) for x in m.nodes()):
-            if any("rejected" in t for t in tags):
-                # after a REJECTED virtual evidence the engine keeps the augmented copy (Inference.__init__ assigns
-                # self.model before check_model raises); later answers were still checked above.  Purity is C16.
-                tags.append("ANOMALY engine keeps augmented model after a rejected virtual evidence")
-            else:
-                return bad("session:engine-model-not-restored", {"engine_nodes": repr(list(ve.model.nodes()))})
+            return bad("session:engine-model-not-restored", {"engine_nodes": repr(list(ve.model.nodes()))})
         return ok(nontrivial=nt >= 2, key=common.canon_key(["session", case["nodes"], case["edges"], cards, case["cpds"],
                                                             case["steps"], case["nstyle"], case["sstyle"]]),
                   tags=tags + ["session answered=%d" % nt])
+    if kind == "badstates":
+        return run_badstates(case, drv, m, nn, sn, tags)
     if kind == "badorder":
         return run_badorder(case, drv, m, nn, sn, tags)
     if kind == "front":
         return run_front(case, drv, m, nn, sn, tags)
     raise ValueError(kind)
+
+
+def run_badstates(case, drv, m, nn, sn, tags):
+    """the same state set in another order in the child's CPD: accepted iff it is the parent's own list (the rule of
+    Model.vev_accepted); otherwise VariableElimination(model) must raise ValueError, not answer positionally"""
+    from pgmpy.inference import VariableElimination
+    cards = case["cards"]
+    c = case["child"]
+    spec = case["cpds"][str(c)]
+    p = spec["pa"][0]
+    perm = case["perm"]
+    cols = [[Fraction(a, b) for a, b in col] for col in spec["cols"]]
+    sn2 = list(sn)
+    sn2[p] = [sn[p][k] for k in perm]
+    # the columns follow the listed order, so the CPD is the same function of the parent's state NAME
+    m.add_cpds(make_cpd(c, cards, [p], [cols[k] for k in perm], nn, sn2))
+    accept = bool(drv.call("c01_vevok", [list(range(cards[p])), perm]))
+    try:
+        ve = VariableElimination(m)
+        impl = "accepted"
+    except ValueError:
+        impl = "ValueError"
+    if accept != (impl == "accepted"):
+        if impl == "accepted":
+            # accepted although re-ordered: then the answer must be the one for the named table
+            r = one_query(case, drv, m, nn, sn, [c], [[p, 0]], [], "MinFill", True, random.Random(0), tags, engine=ve)
+            if r is None:
+                return ok(nontrivial=True, tags=tags + ["badstates accepted and exact"])
+            return dict(r, kind="badstates:" + r["kind"], tags=tags) if isinstance(r, dict) else ok(nontrivial=False, tags=tags)
+        return bad("impl!=model:state-order-rejection", {"perm": perm, "impl": impl, "model_accepts": accept})
+    return ok(nontrivial=not accept, key=common.canon_key(["badstates", case["edges"], cards, perm, case["cpds"]]),
+              tags=tags + ["badstates=%s" % impl])
 
 
 def run_badorder(case, drv, m, nn, sn, tags):
@@ -800,28 +1224,68 @@ def run_badorder(case, drv, m, nn, sn, tags):
 
 
 def run_front(case, drv, m, nn, sn, tags):
-    """BayesianNetwork.get_state_probability (= P(e)) and predict_probability (= per-variable posterior)"""
+    """BayesianNetwork.get_state_probability (= P(e)) and predict_probability (= per-variable posterior of every
+    missing variable, one row per data row, in the row order and with the index of the data; the index is never data)"""
     import pandas as pd
     n, cards, E = case["n"], case["cards"], case["E"]
     wire = model_bn(case, m, nn)
-    rest = [v for v in range(n) if v not in [e[0] for e in E]]
+    evars = [e[0] for e in E]
+    rest = [v for v in range(n) if v not in evars]
     if not rest:
         return ok(nontrivial=False, tags=tags)
     pe, sjoint, sper = spec_tables(drv, wire, rest, E, [], cards, sn)
     got = m.get_state_probability({nn[v]: sn[v][i] for v, i in E})
     if not common.approx(got, pe):
         return bad("impl!=spec:get_state_probability", {"E": E, "impl": float(got), "spec": str(pe)})
-    if pe == 0 or not E:
+    if not E:
         return ok(nontrivial=False, tags=tags + ["front: P(e) only"])
-    cols = {nn[v]: pd.Series([sn[v][i]], dtype=object) for v, i in E}
-    df = pd.DataFrame(cols)
+    rng = random.Random(case["nameseed"] + 7)
+    # rows: the case's evidence first, then other states of the same variables (also repeated rows)
+    rows = [[i for _, i in E]] + [[rng.randrange(cards[v]) for v in evars] for _ in range(rng.randint(0, 3))]
+    specs = []
+    for r in rows:
+        p_r, _, per_r = spec_tables(drv, wire, rest, [[v, i] for v, i in zip(evars, r)], [], cards, sn)
+        specs.append((p_r, per_r))
+    keep = [k for k in range(len(rows)) if specs[k][0] != 0]
+    if not keep:
+        return ok(nontrivial=False, tags=tags + ["front: P(e) only"])
+    rows = [rows[k] for k in keep]
+    specs = [specs[k] for k in keep]
+    nr = len(rows)
+    ikind = rng.choice(["range", "shifted", "permuted", "gapped", "duplicate", "string"])
+    index = {"range": list(range(nr)), "shifted": list(range(5, 5 + nr)), "permuted": rng.sample(range(nr), nr),
+             "gapped": [10 * (k + 1) for k in range(nr)], "duplicate": [k // 2 for k in range(nr)],
+             "string": ["row%d" % (nr - k) for k in range(nr)]}[ikind]
+    dkind = rng.choice(["object", "native", "categorical", "categorical-unused"])
+    cols = {}
+    for c_, v in enumerate(evars):
+        vals = [sn[v][r[c_]] for r in rows]
+        if dkind == "object" or any(isinstance(x, tuple) for x in sn[v]):
+            ser = pd.Series(vals, index=index, dtype=object)
+        elif dkind == "native":
+            ser = pd.Series(vals, index=index)
+        else:
+            cats = list(sn[v]) if dkind == "categorical-unused" else [x for x in sn[v] if x in vals]
+            ser = pd.Series(pd.Categorical(vals, categories=cats), index=index)
+        cols[nn[v]] = ser
+    order = list(cols)
+    rng.shuffle(order)
+    df = pd.DataFrame({k: cols[k] for k in order})
+    before = df.copy(deep=True)
     pp = m.predict_probability(df)
-    for v in rest:
-        for i in range(cards[v]):
-            col = str(nn[v]) + "_" + str(sn[v][i])
-            want = sper[v][frozenset([(v, repr(sn[v][i]))])]
-            if col not in pp.columns or not common.approx(pp[col].iloc[0], want):
-                return bad("impl!=spec:predict_probability", {"E": E, "col": col, "spec": str(want),
-                                                                "impl": repr(pp.to_dict())[:400]})
-    return ok(nontrivial=True, key=common.canon_key(["front", case["edges"], cards, case["cpds"], E]),
+    tags.append("front: index=%s dtype=%s rows=%d" % (ikind, dkind, nr))
+    if not df.equals(before) or list(df.index) != list(before.index) or list(df.columns) != list(before.columns):
+        return bad("argument-mutated", {"what": "predict_probability data frame"})
+    if list(pp.index) != list(index) or len(pp) != nr:
+        return bad("impl!=spec:predict_probability-index", {"index": repr(index), "impl": repr(list(pp.index))})
+    for k in range(nr):
+        for v in rest:
+            for i in range(cards[v]):
+                col = str(nn[v]) + "_" + str(sn[v][i])
+                want = specs[k][1][v][frozenset([(v, repr(sn[v][i]))])]
+                if col not in pp.columns or not common.approx(pp[col].iloc[k], want):
+                    return bad("impl!=spec:predict_probability", {"E": E, "row": k, "rows": rows, "col": col, "spec": str(want),
+                                                                    "index": ikind, "dtype": dkind,
+                                                                    "impl": repr(pp.to_dict())[:400]})
+    return ok(nontrivial=True, key=common.canon_key(["front", case["edges"], cards, case["cpds"], E, rows]),
               tags=tags + ["front: predict_probability"])
